@@ -15,19 +15,60 @@ class Checker:
     def __init__(self, unit, tier='quick', timeout_s=60, semantics='bv'):
         self.unit = unit; self.tier = tier; self.timeout_s = timeout_s; self.semantics = semantics
         self.obs = []; self.inconclusive = []; self.vacuity = []; self.functions = set(); self.paths = {}
-        self.queries = 0; self.solver_s = 0.0; self.solvers_used = {}; self._seen_mem = set(); self.selfchecks = []; self.notes = []; self.errors = []
+        self.queries = 0; self.solver_s = 0.0; self.solvers_used = {}; self._seen_mem = set(); self.slicing = True; self._varcache = {}; self._keep = []; self.nviol = 0; self.skipped = 0; self.max_violations = int(os.environ.get('VERIF_MAX_VIOLATIONS', '4'))
+        self._known = [f for f in load_known()[0]]; self.selfchecks = []; self.notes = []; self.errors = []
         self.t0 = time.time()
     # --- core
+    def _vars(self, e):
+        c = self._varcache; k = e.get_id()
+        if k in c: return c[k]
+        out = set(); seen = set(); todo = [e]
+        while todo:
+            x = todo.pop(); i = x.get_id()
+            if i in seen: continue
+            seen.add(i)
+            if z3.is_const(x):
+                if x.decl().kind() == z3.Z3_OP_UNINTERPRETED: out.add(i)
+            else: todo.extend(x.children())
+        r = frozenset(out); c[k] = r; self._keep.append(e); return r
+    def _slice(self, pc, extra):
+        """constraints of pc that share variables (transitively) with `extra`; pc itself is satisfiable (path invariant)"""
+        need = set()
+        for e in extra: need |= self._vars(e)
+        rest = [(c, self._vars(c)) for c in pc]; sel = []
+        changed = True
+        while changed:
+            changed = False; keep = []
+            for c, vs in rest:
+                if vs & need or not vs: sel.append(c); need |= vs; changed = True
+                else: keep.append((c, vs))
+            rest = keep
+        return sel
     def _solve(self, pc, extra, timeout_s=None, tactic=None):
         from . import smt
         t = time.time()
-        r, model, info = smt.solve(list(pc) + list(extra), timeout_s or self.timeout_s, tactic=tactic)
+        pc = list(pc); extra = list(extra)
+        sliced = self._slice(pc, extra) if (self.slicing and extra and len(pc) > 8) else pc
+        r, model, info = smt.solve(sliced + extra, timeout_s or self.timeout_s, tactic=tactic)
+        if r == 'sat' and len(sliced) != len(pc):
+            # counterexample: extend to a model of the full path condition (values of the sliced part pinned, the rest is independent)
+            pins = []
+            for d in model.decls():
+                if d.arity() == 0:
+                    try: pins.append(d() == model[d])
+                    except Exception: pass
+            r2, model2, info2 = smt.solve(pc + extra + pins, timeout_s or self.timeout_s, tactic=tactic)
+            if r2 == 'sat': model = model2
+            else: r, model, info = smt.solve(pc + extra, timeout_s or self.timeout_s, tactic=tactic)
         dt = time.time() - t
         self.queries += 1; self.solver_s += dt
         if info.get('solver', 'z3') != 'z3': self.solvers_used[info['solver']] = self.solvers_used.get(info['solver'], 0) + 1
         return r, model, dt, info
     def prove(self, name, pc, claim, site=None, decode=None, replay=None, semantics=None, timeout_s=None, sample=None, tactic=None, kind='post'):
         """claim must hold under pc. sat => counterexample (decoded, replayed)."""
+        if self.nviol >= self.max_violations:
+            # enough replayed, unlisted violations in this unit: the run already fails; remaining obligations are not attempted
+            self.skipped += 1; return z3.unknown
         r, m, dt, info = self._solve(pc, [z3.Not(claim)], timeout_s, tactic)
         ob = {'name': name, 'site': site or name, 'status': r, 'time_s': round(dt, 3), 'semantics': semantics or self.semantics, 'kind': kind}
         if info.get('solver', 'z3') != 'z3': ob['solver'] = info['solver']
@@ -42,6 +83,7 @@ class Checker:
                     ok, detail = replay(m, ob['witness'])
                     ob['replay'] = 'reproduced' if ok else 'not-reproduced'
                     ob['replay_detail'] = detail
+                    if ok and not any(f['site'] == ob['site'] or (f['site'].endswith('*') and ob['site'].startswith(f['site'][:-1])) for f in self._known): self.nviol += 1
                 except Exception as e:
                     ob['replay'] = 'replay-error'; ob['replay_detail'] = traceback.format_exc()[-1500:]
             else:
@@ -83,7 +125,7 @@ class Checker:
     def report(self):
         return {'unit': self.unit, 'obligations': self.obs, 'inconclusive': self.inconclusive, 'vacuity': self.vacuity,
                 'functions': sorted(self.functions), 'paths': self.paths, 'queries': self.queries, 'solver_s': round(self.solver_s, 3),
-                'selfchecks': self.selfchecks, 'solvers_used': self.solvers_used, 'notes': self.notes, 'errors': self.errors, 'wall_s': round(time.time() - self.t0, 2)}
+                'selfchecks': self.selfchecks, 'solvers_used': self.solvers_used, 'notes': self.notes + (['%d obligations not attempted after %d replayed violations' % (self.skipped, self.nviol)] if self.skipped else []), 'errors': self.errors, 'wall_s': round(time.time() - self.t0, 2)}
 
 
 # ------------------------------------------------------------------ parallel scheduling
